@@ -255,3 +255,31 @@ def selftest(workdir, cases):
         lg = read_log(log)
         if not lg or lg[-1]['tokhash'] != want['tokhash']:
             raise RuntimeError(f'oracle twin hash disagreement on {text!r}')
+
+
+def seq_with_comments(plain_list):
+    """Flat sequence of a parsed list *including* comment leaves (normalised:
+    without their line terminator)."""
+    out = []
+    stack = list(reversed(plain_list))
+    while stack:
+        t = stack.pop()
+        if t is None:
+            out.append(')')
+        elif isinstance(t, str):
+            if t.startswith(';'):
+                t = t.rstrip('\n').rstrip('\r')
+            out.append(t)
+        else:
+            out.append('(')
+            stack.append(None)
+            stack.extend(reversed(t))
+    return out
+
+
+def seq_with_comments_of_text(text):
+    return seq_with_comments(refreader.read_lenient(text))
+
+
+def full_digest_of_text(text):
+    return '%016x' % token_hash(seq_with_comments_of_text(text))
